@@ -221,3 +221,15 @@ CLAIMED['C39'] = dict(
     note="Functor body is a ghost invocation event; T is a value tag; non-DISPENSO_DEBUG build; which trampoline ends up in invoke_ is template dispatch (read, not proved); double invocation "
          "and use-after-move are documented misuse. Relies on the nextPow2 contract (C44) and the small-buffer block contract (C41).",
     technique="CBMC DFCC function contracts with symbolic type parameters and ghost lifetimes / ghost pool")
+
+CLAIMED['C41'] = dict(
+    category='proof',
+    text="(a) getOrdinal plus the three ordinal switches (alloc / dealloc / bytesAllocated, tables generated from the source's case labels and template arguments) map every power-of-two "
+         "request N <= 256 to one chunk size >= N that is a multiple of N, consistently for allocation, release and accounting; (b) alloc()/dealloc() keep the thread-local stack count in "
+         "[0, kMaxNumTLBuffers), pop only blocks that are free on this thread's stack and mark them allocated (never hand out a live block), push only allocated blocks, and recycling to "
+         "the central store never turns a block into an allocated one; (c) bytesAllocated touches backingStore only while it alone holds backingStoreLock, takes the lock only by an RMW "
+         "with acquire that saw 0 and releases it with a release store - under arbitrary interference by other lock users (CBMC loop contract on the retry loop).",
+    note="The central store (moodycamel queue) is an axiom (multiset of free blocks); block ids are a ghost universe; A-SC. NOT decided: the carving of a malloc block into chunks in "
+         "grabFromCentralStore, thread-exit hand-back, cross-thread exclusivity through the queue. The lock defect this check found on the pinned tree (exchange 1 -> 1 after a failed attempt) "
+         "was reproduced natively with malloc interposition and repaired (fix: commit in known_findings.txt).",
+    technique="CBMC DFCC function + loop contracts, ghost block states, rely/guarantee on the lock word")
